@@ -201,7 +201,13 @@ class SyncBBComputation(VariableComputation):
 
         """
         # Only done by the first variable in the chain of variables
-        if self.previous_var is None:
+        if self.previous_var is None and self.next_var is None:
+            # Single variable: there is no (binary) constraint and nobody to
+            # send the path to, any value is optimal.
+            self.value_selection(self.variable.domain[0], 0)
+            self.new_cycle()
+            self.finished()
+        elif self.previous_var is None:
             path = [(self.variable.name, self.variable.domain[0], 0)]
             ub = INFINITY if self.mode == "min" else -INFINITY
             self.logger.debug(
